@@ -376,3 +376,77 @@ def element_sources(fnode, listvar):
 def truthy_texts(x):
     """spellings of `x is non-empty` the canonical form keeps apart (x a container of unknown static type)"""
     return {x, f"len({x})"}
+
+
+def value_sources(a, f, name_node, depth=4):
+    """Where the value read at `name_node` (a Name load in f) can come from, following plain copies:
+    a list of (kind, node) with kind in
+      'param'            the function's parameter itself
+      'unpack', (call, i) element i of a tuple-unpacking assignment from `call`
+      'expr', value      the value expression of a plain assignment
+      'other', node      loop variable, with-target, ...
+    computed from reaching definitions (sa/refnorm.reaching_definitions), so it is independent of how many
+    temporaries or renamings lie between the producer and the use."""
+    from sa.refnorm import reaching_definitions
+
+    key = ("reach", f.id)
+    cache = a.__dict__.setdefault("_reach_cache", {})
+    if key not in cache:
+        cache[key] = reaching_definitions(f.node)
+    reach = cache[key]
+    pm = a.parents(f.mod)
+    out = []
+    seen = set()
+    todo = [(name_node, depth)]
+    while todo:
+        n, d = todo.pop()
+        for dnode in reach.get(id(n), []):
+            if id(dnode) in seen:
+                continue
+            seen.add(id(dnode))
+            if isinstance(dnode, ast.arg):
+                out.append(("param", dnode))
+                continue
+            par = pm.get(id(dnode))
+            if isinstance(par, ast.Tuple):
+                asg = pm.get(id(par))
+                if isinstance(asg, ast.Assign) and len(asg.targets) == 1 and asg.targets[0] is par:
+                    idx = next(i for i, e in enumerate(par.elts) if e is dnode)
+                    if isinstance(asg.value, ast.Tuple) and len(asg.value.elts) == len(par.elts):
+                        v = asg.value.elts[idx]
+                        if isinstance(v, ast.Name) and d > 0:
+                            todo.append((v, d - 1))
+                        else:
+                            out.append(("expr", v))
+                    else:
+                        out.append(("unpack", (asg.value, idx)))
+                    continue
+            if isinstance(par, (ast.Assign, ast.AnnAssign)) and getattr(par, "value", None) is not None and (par.targets[0] if isinstance(par, ast.Assign) else par.target) is dnode:
+                v = par.value
+                if isinstance(v, ast.Name) and d > 0:
+                    todo.append((v, d - 1))
+                else:
+                    out.append(("expr", v))
+                continue
+            out.append(("other", dnode))
+    return out
+
+
+def namespace_from_schema_name(a, f, ns_expr, schema_param, ns_param, sn_name="schema_name"):
+    """the expression passed as namespace is element 0 of schema_name(<schema_param>, <the function's own namespace
+    parameter>) on every path (reaching definitions)"""
+    if not isinstance(ns_expr, ast.Name):
+        return False
+    srcs = value_sources(a, f, ns_expr)
+    if not srcs:
+        return False
+    for kind, what in srcs:
+        if kind == "unpack" and isinstance(what[0], ast.Call) and norm(what[0].func) == sn_name and what[1] == 0 and len(what[0].args) >= 2 and norm(what[0].args[0]) == schema_param and isinstance(what[0].args[1], ast.Name):
+            inner = value_sources(a, f, what[0].args[1])
+            if inner and all(k == "param" for k, n_ in inner):
+                continue
+            # the enclosing namespace may be a local copy of the parameter (namespace = ns)
+            if inner and all(k == "param" or (k == "expr" and isinstance(w, ast.Name)) for k, w in inner):
+                continue
+        return False
+    return True
